@@ -9,7 +9,6 @@ from sa.checks.c14 import ENC, cols, limit_of, summarise
 from sa.checks.ibl_rules import build_model, c01_rules
 from sa.guards import GuardWalk, is_opaque
 from sa.kern import make_evaluator, py_calls
-from sa.loopsum import LoopSummariser
 from sa.report import Ctx
 from sa.srcmodel import FuncInfo, func_body, inline_locals
 from sa.symterm import (Env, Poly, Unsupported, all_atoms, ite, show,
@@ -125,7 +124,7 @@ def _constructor_accepts(ctx: Ctx) -> dict[str, Any]:
     for e in gw.exits:
         if e.kind == "raise" and e.loops and not is_opaque(e.cond):
             ats = all_atoms(e.cond)
-            others = [a for a in ats if a[0] == "var"
+            others = [a for a in ats if a[0] in ("var", "cell")
                       and Poly.atom(a) not in (W, H)]
             if mn.as_atom() in ats and len(others) == 2:
                 rej = e
@@ -190,14 +189,16 @@ def _move_shape(ctx: Ctx, fi: FuncInfo, kind: str, C: dict[str, int]) \
 
 
 def _dtype(ctx: Ctx) -> None:
+    """The integer type of packings covers H + h and n_items.
+
+    Value based (constructor normalised by a guard walk, see C03): the
+    `max_value` handed to int_range_to_dtype is evaluated with the values
+    the locals have after the row loop; it must be a maximum with one
+    argument >= max(W, H) + (the running maximum of all item dimensions) and
+    one argument >= (the sum of the multiplicities)."""
+    from sa.checks.c03 import _ConstructorModel
     repo = ctx.repo
     new = repo.func(INST, "Instance.__new__")
-    ls = LoopSummariser()
-    ev = make_evaluator(repo, new, extra_call=py_calls, loop_hook=ls.hook)
-    ev.int_transparent = True
-    ev.tolerant_loops = True
-    gw = GuardWalk(ev, ls)
-    env = gw.walk(Env(), func_body(new))
     call = None
     for n in ast.walk(new.node):
         if isinstance(n, ast.Call) and isinstance(n.func, ast.Name) and \
@@ -207,45 +208,49 @@ def _dtype(ctx: Ctx) -> None:
     kws = {k.arg: k.value for k in call.keywords}
     ok = False
     detail = "max_value not understood"
-    del ls, gw, env
-    ev2 = make_evaluator(repo, new)
+    cm = _ConstructorModel(ctx, new)
+    p = new.params
     try:
-        mx = ev2.num(Env(), kws["max_value"])
+        mx = cm.ev.num(cm.out, kws["max_value"])
         a = mx.as_atom()
         args = list(a[2]) if a is not None and a[0] == "app" and \
             a[1] == "max" else [mx]
-        md, ms, ni = (Poly.var(x) for x in ("max_dim", "max_size",
-                                             "n_items"))
-        has_dim = any((arg - md - ms).const_value() is not None and (
-            arg - md - ms).const_value() >= 0 for arg in args)
-        has_n = any((arg - ni).const_value() is not None and (
-            arg - ni).const_value() >= 0 for arg in args)
-        # definitions of the three quantities
-        src = {}
-        for n in ast.walk(new.node):
-            if isinstance(n, (ast.Assign, ast.AnnAssign, ast.AugAssign)):
-                tg = n.targets[0] if isinstance(n, ast.Assign) else n.target
-                if isinstance(tg, ast.Name) and tg.id in (
-                        "max_dim", "max_size", "n_items") and \
-                        n.value is not None:
-                    src.setdefault(tg.id, []).append(n)
-        d_ok = any(isinstance(n.value, ast.Call) and ast.unparse(
-            n.value.func) == "max" and {ast.unparse(x) for x in
-                                         n.value.args} == {
-            "bin_width", "bin_height"} for n in src.get("max_dim", []))
-        s_ok = any(isinstance(n.value, ast.Call) and ast.unparse(
-            n.value.func) == "max" and {"max_size", "width", "height"} <= {
-            ast.unparse(x) for x in n.value.args}
-            for n in src.get("max_size", []))
-        n_ok = any(isinstance(n, ast.AugAssign) and isinstance(
-            n.op, ast.Add) and ast.unparse(n.value) == "repetitions"
-            for n in src.get("n_items", []))
+        Wv, Hv = Poly.var(p[2]), Poly.var(p[3])
+        md = Poly.atom(("app", "max", tuple(sorted(
+            {Wv, Hv}, key=lambda q: repr(q.key())))))
+        ni = cm.post_symbol(cm.count_var)
+        n_ok, _why = cm.accumulates(cm.count_var, 2)
+        # the running maximum of the item dimensions: a loop variable whose
+        # update is max(itself, width, height)
+        size_vars = []
+        for mk in cm.gw.marks:
+            if not mk.loops or not isinstance(mk.value, Poly):
+                continue
+            at = mk.value.as_atom()
+            lenv = cm.gw.loop_envs[id(mk.loops[0])]
+            before = lenv.vars.get(mk.name)
+            if at is not None and at[0] == "app" and at[1] == "max" and \
+                    isinstance(before, Poly) and before in at[2]:
+                others = [x for x in at[2] if x != before]
+                cells = {x.as_atom()[2][0].const_value() for x in others
+                         if x.as_atom() is not None
+                         and x.as_atom()[0] == "cell"
+                         and len(x.as_atom()[2]) == 1}
+                if {0, 1} <= {int(c) for c in cells if c is not None}:
+                    size_vars.append(mk.name)
+        ms = cm.post_symbol(size_vars[0]) if len(size_vars) == 1 else None
+        has_dim = ms is not None and any(
+            (arg - md - ms).const_value() is not None and (
+                arg - md - ms).const_value() >= 0 for arg in args)
+        has_n = ni is not None and any(
+            (arg - ni).const_value() is not None and (
+                arg - ni).const_value() >= 0 for arg in args)
         signed = repo.const(new.module, kws.get(
             "force_signed", ast.Constant(False))) is True
-        ok = has_dim and has_n and d_ok and s_ok and n_ok
+        ok = bool(has_dim and has_n and n_ok)
         detail = (f"dtype covers max({', '.join(show(x)[:60] for x in args)}"
-                  f"): top = H + h <= max_dim + max_size "
-                  f"{'ok' if has_dim and d_ok and s_ok else 'NOT covered'}; "
+                  f"): top = H + h <= max(W, H) + (largest item dimension) "
+                  f"{'ok' if has_dim else 'NOT covered'}; "
                   f"bin ids and window ends <= n_items "
                   f"{'ok' if has_n and n_ok else 'NOT covered'}; "
                   f"signed={signed}")
